@@ -180,7 +180,7 @@ func binarySession(run *ev.Run, unit int64, r *rand.Rand, dir, bin string, tlsd 
 				if straceN == 0 {
 					// the port picked for --listen can be taken by another process between picking and binding
 					// (many sessions and other checks run on this machine): that is the harness's race, not the binary's
-					if out := tail(); strings.Contains(out, "failed to listen on") && portRetries < 5 {
+					if out := strings.ToLower(tail()); (strings.Contains(out, "failed to listen on") || strings.Contains(out, "address already in use")) && portRetries < 5 {
 						portRetries++
 						run.Count("binary_listen_port_collisions_retried")
 						if exited, err = launch(); err != nil {
